@@ -134,6 +134,13 @@ def Graph.rangeOf (g : Graph) (t : Tensor) : Option LR :=
   | some i => g.lrs[i]?
   | none => none
 
+/-- every entry of `ranges` points into `lrs` (holds for the empty graph and is preserved by every operation) -/
+def Graph.WF (g : Graph) : Prop := ∀ p ∈ g.ranges, p.2 < g.lrs.length
+
+/-- the range `get_or_create_range(t)` returns contains the ticks `lo … hi` (both inclusive) -/
+def Graph.Covers (g : Graph) (t : Tensor) (lo hi : Int) : Prop :=
+  ∃ r : LR, g.rangeOf t = some r ∧ r.start ≤ lo ∧ hi ≤ r.end_
+
 /-- One mutation of the graph, as performed by the extraction functions. -/
 inductive Ev where
   /-- `lr_graph.fuse_ranges(in_tens, out_tens)` -/
@@ -316,8 +323,8 @@ deriving Repr, Inhabited
 
 /-- `time_for_cascade.get(cascade, lr_graph.current_time)` -/
 def TimeState.timeFor (ts : TimeState) (cascade : Nat) : Nat :=
-  match ts.cascades.lookup cascade with
-  | some t => t
+  match ts.cascades.find? (fun p => p.1 == cascade) with
+  | some p => p.2
   | none => ts.current
 
 /-- the time bookkeeping at the end of one iteration -/
@@ -396,20 +403,24 @@ structure PassWalk where
   events : List Ev
 deriving Repr
 
+/-- one iteration of the `cascaded_passes` loop entered at `lr_graph.current_time = ct`; second component:
+    `current_time` afterwards -/
+def passWalk (descend : Bool) (p : CpuPass) (ct : Nat) : PassWalk × Nat :=
+  match (if descend then p.npu else none) with
+  | some s =>
+    let w := npuWalk s ct
+    ({ entry := ct, time := w.current, npuTimes := w.times,
+       events := cpuMarks p.inputs ct ++ w.events ++ cpuMarks (p.intermediates ++ p.outputs) w.current }, w.current)
+  | none =>
+    ({ entry := ct, time := ct, npuTimes := [],
+       events := cpuMarks p.inputs ct ++ cpuMarks (p.intermediates ++ p.outputs) ct }, ct + 2)
+
 /-- the `cascaded_passes` loop -/
 def cpuLoop (descend : Bool) : List CpuPass → Nat → List PassWalk × Nat
   | [], ct => ([], ct)
   | p :: rest, ct =>
-    match (if descend then p.npu else none) with
-    | some s =>
-      let w := npuWalk s ct
-      let r := cpuLoop descend rest w.current
-      ({ entry := ct, time := w.current, npuTimes := w.times,
-         events := cpuMarks p.inputs ct ++ w.events ++ cpuMarks (p.intermediates ++ p.outputs) w.current } :: r.1, r.2)
-    | none =>
-      let r := cpuLoop descend rest (ct + 2)
-      ({ entry := ct, time := ct, npuTimes := [],
-         events := cpuMarks p.inputs ct ++ cpuMarks (p.intermediates ++ p.outputs) ct } :: r.1, r.2)
+    let r := cpuLoop descend rest (passWalk descend p ct).2
+    ((passWalk descend p ct).1 :: r.1, r.2)
 
 structure CpuWalk where
   events : List Ev
